@@ -326,7 +326,10 @@ func (x *condXlat) termDepth(e ast.Expr, depth int) (string, bool) {
 		if c, ok := x.info.Uses[t.Sel].(*types.Const); ok {
 			return "const:" + c.Name(), true
 		}
-		if _, isPkg := x.info.Uses[identOf(t.X)].(*types.PkgName); isPkg {
+		if pn, isPkg := x.info.Uses[identOf(t.X)].(*types.PkgName); isPkg {
+			if t.Sel.Name == "Zero" && strings.HasSuffix(pn.Imported().Path(), "uint128") {
+				return "U128(0)", true
+			}
 			return types.ExprString(t), true
 		}
 		// a field of a struct the function allocated itself is a variable of its own (pseudo.go)
@@ -536,6 +539,13 @@ func (x *condXlat) formula(e ast.Expr) Formula {
 				return x.order(se.X, t.Args[0], 1<<1)
 			}
 		}
+		// a.IsZero() on uint128: a == 0
+		if se, ok := ast.Unparen(t.Fun).(*ast.SelectorExpr); ok && se.Sel.Name == "IsZero" && len(t.Args) == 0 {
+			if f, ok := calleeObj(x.info, t).(*types.Func); ok && f.Pkg() != nil && strings.HasSuffix(f.Pkg().Path(), "uint128") {
+				sa, oka := x.term(se.X)
+				return x.orderTerms(sa, oka, "U128(0)", true, 1<<1)
+			}
+		}
 	}
 	return x.opaque(e)
 }
@@ -579,6 +589,10 @@ func flipMask(m uint8) uint8 {
 func (x *condXlat) order(a, b ast.Expr, mask uint8) Formula {
 	sa, oka := x.term(a)
 	sb, okb := x.term(b)
+	return x.orderTerms(sa, oka, sb, okb, mask)
+}
+
+func (x *condXlat) orderTerms(sa string, oka bool, sb string, okb bool, mask uint8) Formula {
 	if !oka || !okb {
 		*x.uniq++
 		return &FLit{fmt.Sprintf("b:%s⋚%s#%d", sa, sb, *x.uniq), 2, 2}
